@@ -79,7 +79,7 @@ def gen_spec(rng):
     return {'agency': rng.choice(agencies), 'data_agency': rng.choice(agencies), 'created': created, 'start': start, 'end': end,
             'technique': rng.choice('PPPCRLDM'), 'constraint': rng.choice('012'), 'velocities': vel, 'triangle': tri,
             'stations': stations, 'cov_seed': rng.getrandbits(48),
-            'zero_frac': rng.choice([0, 0, 0.3, 0.6, 0.9]),
+            'zero_frac': rng.choice([0, 0, 0.3, 0.6, 0.9]), 'cancel_lines': rng.choice([0, 0, 0, 1, 3]),
             'est_comment': rng.random() < 0.8, 'mat_comment': rng.random() < 0.7,
             'comment_block': rng.random() < 0.85, 'reference_block': rng.random() < 0.5,
             'header_trailing': rng.choice(['', '', ' ', '      ']), 'pad_lines': rng.random() < 0.2,
@@ -108,6 +108,27 @@ def cov_matrix(spec):
                 v = 0.0                      # whole cross-station entries vanish -> all-zero lines
             v = float(fe(v))
             m[i][j] = m[j][i] = v
+    # lines that are NOT all-zero although their values cancel: (c, -c, 0) and (c, -c) on one matrix line
+    for _ in range(spec.get('cancel_lines', 0)):
+        if n < 5:
+            break
+        c = float(fe(r.uniform(1e-7, 1e-5)))
+        if spec['triangle'] == 'L':
+            i = r.randrange(3, n)
+            j = 3 * r.randrange(0, i // 3)          # a line of row i starts at column j (0-based)
+            if j + 2 < i:
+                trip = [(i, j, c), (i, j + 1, -c), (i, j + 2, 0.0)]
+            else:
+                continue
+        else:
+            i = r.randrange(0, n - 3)
+            k = r.randrange(0, (n - i) // 3)
+            j = i + 3 * k                           # a line of row i starts at column i + 3k
+            if k == 0 or j + 1 >= n:
+                continue
+            trip = [(i, j, c), (i, j + 1, -c)] + ([(i, j + 2, 0.0)] if j + 2 < n else [])
+        for a, b, v in trip:
+            m[a][b] = m[b][a] = v
     return m
 
 
